@@ -162,7 +162,7 @@ def _case(draw):
         ks = draw(st.one_of(st.lists(st.integers(0, 12), min_size=1, max_size=2, unique=True),      # one or two keys: every slot of the smallest table
                             st.lists(st.integers(-30, 30), max_size=12, unique=True),
                             st.lists(st.one_of(st.integers(-100, 100), st.sampled_from([2**31, 2**32, -2**31, 2**40, 997, 1994])), min_size=13, max_size=70, unique=True)))
-        return {"fam": "map", "kind": kind, "keys": ks, "rem": draw(st.lists(st.integers(0, 69), max_size=20)),
+        return {"fam": "map", "kind": kind, "keys": ks, "rem": draw(st.one_of(st.lists(st.integers(0, 69), max_size=20), st.lists(st.integers(0, 69), max_size=70))), "remwrap": draw(st.booleans()),
                 "hist": draw(st.sampled_from(["plain", "plain", "clear-refill", "set-twice"])), "partial": draw(_partial())}
     if which == "hist":
         seq = draw(seqs.seq_case(ext=True, max_ops=25))
@@ -614,6 +614,8 @@ def run_case(ctx, case):
         for k in keys:
             P.add("set %%0 i:%d i:%d" % (k, k * 2))
         for r in case["rem"]:
+            if case.get("remwrap") and keys:
+                r %= len(keys)         # every drawn removal names a key: long removal runs take a Table down across its size thresholds
             if r < len(keys) and keys[r] is not None:
                 P.add("rem %%0 i:%d" % keys[r])
                 keys[r] = None
@@ -652,6 +654,8 @@ def run_case(ctx, case):
         ev = ["base=" + kind, "map-history=" + hist]
         if len(live) > 12:
             ev.append("map-keys>12")
+        if len(keys) >= 9 and len(live) * 2 <= len(keys):
+            ev.append("map-shrunk-to-half-or-less")
         if part is not None:
             ev.append("abandoned-walk")
         return Result(fail, len(live) == 0 or len(case["rem"]) > 0, ev, None)
